@@ -85,14 +85,9 @@ def decodeAmo (f5 : Nat) : Option AmoOp :=
   | 0b01000 => some .or | 0b10000 => some .min | 0b10100 => some .max | 0b11000 => some .minu
   | 0b11100 => some .maxu | _ => none
 
-def decode32 (w : Nat) : Option Instr32 :=
-  if w ≥ 2 ^ 32 then none else
-  let opcode := bits w 0 7
-  let rd := bits w 7 5
-  let f3 := bits w 12 3
-  let rs1 := bits w 15 5
-  let rs2 := bits w 20 5
-  let f7 := bits w 25 7
+/-- decode from the six fixed fields (the whole word `w` is consulted only for immediates and the
+    odd-shaped fields of FENCE / SYSTEM / AMO) -/
+def decodeFields (opcode rd f3 rs1 rs2 f7 w : Nat) : Option Instr32 :=
   match opcode with
   | 0b0110111 => some (.lui rd (bits w 12 20))
   | 0b0010111 => some (.auipc rd (bits w 12 20))
@@ -147,5 +142,11 @@ def decode32 (w : Nat) : Option Instr32 :=
     else if f5 = 0b00011 then some (.sc aq rl rd rs1 rs2)
     else (decodeAmo f5).map (fun op => .amo op aq rl rd rs1 rs2)
   | _ => none
+
+/-- the instruction a 32-bit word denotes: opcode = inst[6:0], rd = inst[11:7], funct3 =
+    inst[14:12], rs1 = inst[19:15], rs2 = inst[24:20], funct7 = inst[31:25] -/
+def decode32 (w : Nat) : Option Instr32 :=
+  if w ≥ 2 ^ 32 then none else
+  decodeFields (bits w 0 7) (bits w 7 5) (bits w 12 3) (bits w 15 5) (bits w 20 5) (bits w 25 7) w
 
 end BB.Spec
